@@ -13,14 +13,15 @@ From Pymoto Require Import Model.Concat.
 Import ListNotations.
 
 Record OOps (K : Type) := mkOOps {
-  o0 : K; ohalf : K; oten : K; ohuge : K;          (* the literals 0, 0.5, 10, 1e300 *)
+  o0 : K; ohalf : K; oten : K; ohuge : K;          (* the literals 0, 0.5, 10, 1e40 *)
   oadd : K -> K -> K; osub : K -> K -> K; omul : K -> K -> K; odiv : K -> K -> K;
   oopp : K -> K; osqrt : K -> K; oabs : K -> K;
   oltb : K -> K -> bool;          (* a < b *)
+  oleb : K -> K -> bool;          (* a <= b *)
   osuml : list K -> K             (* np.sum of a 1-D array (binary64: numpy's pairwise order; R: the sum) *)
 }.
 Arguments o0 {K}. Arguments ohalf {K}. Arguments oten {K}. Arguments ohuge {K}. Arguments oadd {K}. Arguments osub {K}. Arguments omul {K}.
-Arguments odiv {K}. Arguments oopp {K}. Arguments osqrt {K}. Arguments oabs {K}. Arguments oltb {K}. Arguments osuml {K}.
+Arguments odiv {K}. Arguments oopp {K}. Arguments osqrt {K}. Arguments oabs {K}. Arguments oltb {K}. Arguments oleb {K}. Arguments osuml {K}.
 
 (* xmin / xmax: a scalar (broadcast) or one value per variable *)
 Inductive bound (K : Type) := BScalar (k : K) | BVector (l : list K).
@@ -77,6 +78,7 @@ Section OC.
        l1, l2 = l1init, l2init
        while l2 - l1 > l1l2tol:
            lmid = 0.5 * (l1 + l2)
+           if lmid <= l1 or lmid >= l2: break        (fix bd6675c)
            xnew = ...
            l1, l2 = (lmid, l2) if np.sum(xnew) - maxvol > 0 else (l1, lmid)
      `last` is the value bound to the name xnew (None: not bound yet) *)
@@ -88,6 +90,8 @@ Section OC.
       | O => BisOutOfFuel
       | S fuel' =>
           let lmid := omul P (ohalf P) (oadd P l1 l2) in
+          if oleb P lmid l1 || oleb P l2 lmid then BisDone l1 l2 last      (* no representable midpoint left: break *)
+          else
           let xn := oc_xnew pr lmid x g in
           if oltb P 0 (osub P (osum xn) maxvol)
           then bisect pr maxvol x g fuel' lmid l2 (Some xn)
@@ -95,8 +99,8 @@ Section OC.
       end
     else BisDone l1 l2 last.
 
-  (* the bracket-growing loop (fix ebed191, finding F19): starting from l2 = l2init and xnew = update at l2,
-       while np.sum(xnew) - maxvol > 0 and np.any(xnew > lower) and l2 < 1e300:
+  (* the bracket-growing loop (fixes ebed191 + bd6675c, finding F19): starting from l2 = l2init and xnew = update at l2,
+       while np.sum(xnew) - maxvol > 0 and np.any(xnew > lower) and l2 < 1e40:
            l2 *= 10
            xnew = np.clip(xval * np.sqrt(-dfdx / l2), lower, upper) *)
   Inductive grow_result := GrowOutOfFuel | GrowDone (l2 : K) (xn : list K).
@@ -185,9 +189,9 @@ Arguments designs {K}. Arguments warns {K}. Arguments stop {K}. Arguments final 
 From Coq Require Import PrimFloat.
 From Pymoto Require Import Base.PyFloat.
 Definition FloatOOps : OOps float :=
-  {| o0 := PrimFloat.zero; ohalf := 0x1p-1%float; oten := 10%float; ohuge := 0x1.7e43c8800759cp+996%float;
+  {| o0 := PrimFloat.zero; ohalf := 0x1p-1%float; oten := 10%float; ohuge := 0x1.d6329f1c35ca5p+132%float;
      oadd := PrimFloat.add; osub := PrimFloat.sub; omul := PrimFloat.mul; odiv := PrimFloat.div;
-     oopp := PrimFloat.opp; osqrt := PrimFloat.sqrt; oabs := PrimFloat.abs; oltb := PrimFloat.ltb;
+     oopp := PrimFloat.opp; osqrt := PrimFloat.sqrt; oabs := PrimFloat.abs; oltb := PrimFloat.ltb; oleb := PrimFloat.leb;
      osuml := np_sum |}.
 
 (* the keyword defaults of minimize_oc (tolx=1e-4, tolf=1e-4, maxit=100, xmin=0.0, xmax=1.0, move=0.2, l1init=0,
